@@ -50,11 +50,14 @@ PROPS = {
     },
     "C01": {
         "lean_modules": ["WP.Props.C01"],
-        "lean_support": [],
+        "lean_support": ["WP.Props.Solvency.Basic", "WP.Props.Solvency.Step", "WP.Props.Solvency.Loop", "WP.Props.Solvency.Swap",
+                         "WP.Props.Solvency.Ops", "WP.Props.Solvency.Reach", "WP.Props.Solvency.Final"],
         "families": [("hist", 10000, 500000)],
         "history": True,
         "rule": "hist: random histories (40-100 ops after each `H init`) on a real Whirlpool (fixed / dynamic / mixed tick arrays; Anchor or Pinocchio liquidity path per op; fee accumulators started anywhere in u128 incl. just below wrap-around); the whole state digest is compared with the Lean model after every op and the implementation-side oracles (hist_oracle.rs) run after every op; non-trivial = a successful op; distinct by hash of (op line, clock)",
-        "trusted": ["C01 in Lean is PARTIAL: the four mechanisms are theorems, the composite solvency invariant over histories is the stated obligation `Solvent`; it is checked on the implementation at every prefix by the drain oracle (every position fully withdrawn + fees + protocol fees collected, rotating orders) and the trader ledger"],
+        "trusted": ["the theorems are about the history state machine WP.Model.Hist (hand-written); it is tied to the code by the digest comparison after every operation of every generated history and by the implementation-side drain oracle (every position fully withdrawn + fees + protocol fees collected, rotating orders, at every prefix) and trader ledger",
+                    "hypotheses of the theorems: aligned consecutive array sequences for swaps (the loader's output: buildSeq_seqOK), u64 swap amount, a pool that starts empty with in-bounds price / fee rate / protocol fee rate",
+                    "token vault balances are bookkeeping of the transfers the handlers make (plain SPL tokens; transfer fees are C16); reward vaults are outside this property"],
     },
     "C03": {
         "lean_modules": ["WP.Props.C03"],
